@@ -27,6 +27,10 @@ pub enum ProbeCase {
     Ops {
         prog: Program,
         goal_var: u8,
+        /// with the frontend feature: the store streams its nodes and the listener hangs up after this
+        /// many operations (builds without the feature run the plain store; transcripts must agree)
+        #[serde(default)]
+        hangup_after: Option<u8>,
     },
 }
 
@@ -38,11 +42,25 @@ fn hex(t: &[u64]) -> String {
 /// build (false iff adhoccounting without adhoccountmodels).
 pub fn run(case: &ProbeCase, memo_models_valid: bool) -> Result<Value, String> {
     match case {
-        ProbeCase::Ops { prog, goal_var } => {
+        ProbeCase::Ops { prog, goal_var, hangup_after } => {
             let k = prog.k as usize;
+            #[cfg(feature = "frontend")]
+            let (mut sh, mut listener) = match hangup_after {
+                Some(_) => {
+                    let (s, r) = crossbeam_channel::unbounded::<adf_bdd::datatypes::BddNode>();
+                    (Shadow::with_bdd(k, adf_bdd::obdd::Bdd::with_sender(s)), Some(r))
+                }
+                None => (Shadow::new(k), None),
+            };
+            #[cfg(not(feature = "frontend"))]
             let mut sh = Shadow::new(k);
+            let _ = hangup_after;
             let mut steps = Vec::new();
             for (i, op) in prog.ops.iter().enumerate() {
+                #[cfg(feature = "frontend")]
+                if hangup_after.map(|h| h as usize % prog.ops.len().max(1)) == Some(i) {
+                    listener = None;
+                }
                 let info = sh.step(op).map_err(|e| format!("step {i}: {e}"))?;
                 sh.invariants().map_err(|e| format!("after step {i}: {e}"))?;
                 steps.push(match info.result {
@@ -97,6 +115,8 @@ pub fn run(case: &ProbeCase, memo_models_valid: bool) -> Result<Value, String> {
                     "cubes": cubes,
                 }));
             }
+            #[cfg(feature = "frontend")]
+            drop(listener);
             Ok(json!({"steps": steps, "handles": per_handle, "nodes": sh.bdd.nodes.len()}))
         }
         ProbeCase::Adf { acs, labels, layout, sort, backend, calls: list } => {
